@@ -87,13 +87,19 @@ func pickScenario(name string, rng *rand.Rand) scenario {
 	case "errtrim":
 		s.errTrim = true
 		s.limit = 4
+	case "drain": // a block from outside the pool takes the energy of a payer whose txs are pooled as executable
+		s.limit = 8 + rng.Intn(3)
+		s.lpa = 4
+	case "basefee": // a nearly full block raises the base fee above the fee cap of pooled executable txs
+		s.limit = 40
+		s.lpa = 10
 	default:
 		harnessErr("unknown scenario %q", name)
 	}
 	return s
 }
 
-var scenarioNames = []string{"mixed", "limits", "lifetime", "unsynced", "fork", "nofork", "blocklist", "errtrim"}
+var scenarioNames = []string{"mixed", "limits", "lifetime", "unsynced", "fork", "nofork", "blocklist", "errtrim", "drain", "basefee"}
 
 type recorder struct {
 	e     *env
@@ -161,6 +167,9 @@ func (r *recorder) genUniverse() {
 			p.typed = true
 			p.maxPrio = int64(1 + rng.Intn(3))
 			p.maxFee = p.maxPrio + 1 + int64(rng.Intn(3))
+			if r.sc.name == "basefee" {
+				p.maxFee = p.maxPrio + 1 // the fee cap binds at every base fee: the cost does not move with the base fee
+			}
 			if rng.Intn(3) == 0 {
 				p.dlg = anyAcct()
 			}
@@ -472,7 +481,7 @@ func (r *recorder) adoptOracle() {
 		} else if !(packer.IsGasLimitReached(err) || isKnownTx(err)) && freshOK {
 			// fine alone, refused after earlier pooled txs: excused by the property statement
 		}
-		p := e.expectedPrio(t, best.Header.Number()+1 >= e.net.FC.GALACTICA)
+		p := e.truePrio(t)
 		if prev != nil && p.Cmp(prev) > 0 && r.sc.name != "fork" {
 			r.viol("order", "executables not in non-increasing priority order at #%d %s: %s after %s", i, name, p, prev)
 		}
@@ -497,7 +506,7 @@ func runRecord(scen string, seed int64, mode string) ([]trace.Ev, runStat) {
 	}
 	c0 := int64(2100)
 	e := newEnv(envOpts{seed: seed, behind: sc.behind, galactica: sc.galactica, rich: 3,
-		poor: []int64{2*c0 + 500, 3*c0 + 100, 1000},
+		poor: poorEnergy(scen, c0),
 		pool: txpool.Options{Limit: sc.limit, LimitPerAccount: sc.lpa, MaxLifetime: lifetime}})
 	defer e.close()
 	e.evs = &evlog{pool: e.pool}
@@ -505,7 +514,7 @@ func runRecord(scen string, seed int64, mode string) ([]trace.Ev, runStat) {
 	r.st = runStat{Scen: scen, Seed: seed, Mode: mode, Limit: sc.limit}
 	r.tr = newTracer(e)
 	e.evs.emit(trace.Ev{"e": "Reset", "scen": scen, "seed": seed, "mode": mode,
-		"cfg": map[string]any{"limit": sc.limit, "lpa": sc.lpa, "lifetime": sc.lifetime, "identity": true, "relaxed": r.free, "checkprio": true}})
+		"cfg": map[string]any{"limit": sc.limit, "lpa": sc.lpa, "lifetime": sc.lifetime, "identity": true, "relaxed": r.free, "checkprio": scen != "basefee"}})
 	e.headEvent()
 	r.genUniverse()
 	var s *sched
@@ -551,6 +560,12 @@ func runRecord(scen string, seed int64, mode string) ([]trace.Ev, runStat) {
 		})
 	}
 
+	switch sc.name {
+	case "drain":
+		r.preludeDrain()
+	case "basefee":
+		r.preludeBaseFee()
+	}
 	if sc.name == "unsynced" {
 		// the node is behind: submissions are admitted without evaluation until the pool holds Limit txs
 		for i, x := range r.uni {
@@ -680,4 +695,94 @@ func pooledSorted(e *env) []*txSpec {
 		return out[i].h < out[j].h
 	})
 	return out
+}
+
+func poorEnergy(scen string, c0 int64) []int64 {
+	if scen == "drain" {
+		return []int64{20000, 3*c0 + 100, 1000}
+	}
+	return []int64{2*c0 + 500, 3*c0 + 100, 1000}
+}
+
+// addToUniverse registers txs built after genUniverse.
+func (r *recorder) addToUniverse(l ...*txSpec) {
+	for _, s := range l {
+		r.e.register(s)
+		r.uni = append(r.uni, s)
+	}
+}
+
+// preludeDrain: txs paid by X are pooled and published as executable; then a block that does not come from this pool
+// contains another tx of X that moves X's VTHO away. The wash on the new head has to find X's txs unpayable.
+func (r *recorder) preludeDrain() {
+	e := r.e
+	x := e.poorAcct(0)
+	var rich *acct
+	for _, a := range e.accts {
+		if !a.poor {
+			rich = a
+			break
+		}
+	}
+	base := e.best().Header.Number()
+	own := e.build(txParams{org: x, gas: 42000, coef: 0, ref: base, exp: 1000}, nil)
+	dlg := e.build(txParams{org: rich, dlg: x, gas: 42000, coef: 51, ref: base, exp: 1000}, nil)
+	r.addToUniverse(own, dlg)
+	r.doAdd(96, "remote", own)
+	r.doAdd(96, "local", dlg)
+	r.washOnce()
+	r.snapshotEvent("drain-before")
+	gas := uint64(50000)
+	prepaid := new(big.Int).Mul(new(big.Int).SetUint64(gas), e.baseGP)
+	amount := new(big.Int).Sub(e.energyOf(x), prepaid)
+	amount.Sub(amount, new(big.Int).Mul(big.NewInt(1000), unit))
+	outside := e.build(txParams{org: x, gas: gas, coef: 0, ref: base, exp: 1000, drain: amount}, nil)
+	if _, in := e.advance([]*txSpec{outside}); len(in) != 1 {
+		harnessErr("drain scenario: the outside tx was not adopted")
+	}
+	e.headEvent()
+	r.st.Heads++
+	if e.energyOf(x).Cmp(own.cost) >= 0 {
+		harnessErr("drain scenario is vacuous: %s still has %s", x.name, e.energyOf(x))
+	}
+	r.washOnce()
+	r.snapshotEvent("drain-after")
+	r.adoptOracle()
+}
+
+// preludeBaseFee: dynamic-fee txs whose fee cap equals the base fee are pooled and published as executable; then a nearly
+// full block raises the base fee. The wash on the new head has to find them unpayable (gas price below the base fee).
+func (r *recorder) preludeBaseFee() {
+	e := r.e
+	var rich []*acct
+	for _, a := range e.accts {
+		if !a.poor {
+			rich = append(rich, a)
+		}
+	}
+	base := e.best().Header.Number()
+	t1 := e.build(txParams{org: rich[0], typed: true, maxFee: 1, maxPrio: 1, gas: 21000, ref: base, exp: 1000}, nil)
+	t2 := e.build(txParams{org: rich[1], dlg: e.poorAcct(1), typed: true, maxFee: 1, maxPrio: 1, gas: 21000, ref: base, exp: 1000}, nil)
+	t3 := e.build(txParams{org: rich[1], typed: true, maxFee: 2, maxPrio: 1, gas: 21000, ref: base, exp: 1000}, nil) // stays payable
+	r.addToUniverse(t1, t2, t3)
+	r.doAdd(96, "remote", t1)
+	r.doAdd(96, "local", t2)
+	r.doAdd(96, "remote", t3)
+	r.washOnce()
+	r.snapshotEvent("basefee-before")
+	before := e.nextBaseFee()
+	limit := e.best().Header.GasLimit()
+	n := int((limit*95/100 - thor.TxGas) / thor.ClauseGas)
+	filler := e.build(txParams{org: rich[2], gas: thor.TxGas + uint64(n)*thor.ClauseGas, coef: 0, ref: base, exp: 1000, clauses: n}, nil)
+	if _, in := e.advance([]*txSpec{filler}); len(in) != 1 {
+		harnessErr("basefee scenario: the filler tx was not adopted")
+	}
+	e.headEvent()
+	r.st.Heads++
+	if after := e.nextBaseFee(); before == nil || after == nil || after.Cmp(before) <= 0 {
+		harnessErr("basefee scenario is vacuous: base fee %v -> %v", before, after)
+	}
+	r.washOnce()
+	r.snapshotEvent("basefee-after")
+	r.adoptOracle()
 }
